@@ -62,13 +62,15 @@ func c05One(o *hx.Out, r *hx.Rng, name string, cfg [][3]string) error {
 		gets = append(gets, hx.L(hx.S(k), hx.S(got)))
 		// filter with a literal that is the extracted value or a near miss
 		lit := got
-		switch r.Intn(4) {
+		switch r.Intn(6) {
 		case 0:
 			lit = got + "x"
 		case 1:
 			if len(got) > 0 {
 				lit = got[:len(got)-1]
 			}
+		case 2:
+			lit = "" // absent and empty both denote the empty string
 		}
 		flt, err := benchproc.NewFilter(c05Quote(k) + ":" + strconv.Quote(lit))
 		if err != nil {
@@ -159,11 +161,22 @@ func genC05(o *hx.Out, r *hx.Rng, tier string, replay string) error {
 		return err
 	}
 	o.Extra["exhaustive_names_up_to_len"] = maxLen
+	// crafted shapes: repeated sub-name keys, empty values, empty segments, explicit and trailing GOMAXPROCS
+	for _, name := range []string{"X/a=1/a=2", "X/a=/a=2", "X/a=1/a=", "X/b=1/a=1/b=2", "X/gomaxprocs=2/gomaxprocs=4",
+		"X/gomaxprocs=2-8", "X/gomaxprocs=-8", "X//a=1", "X/a=1//b=2-8", "//", "X//", "/a=1/a=2", "X/a=1/a=2-16", "X/ab=1/a=2",
+		"X/a/a=2", "X/a=1/b=2/a=3/b=4", "X-8/a=1", "X/a=x-", "X/7=1/7=2"} {
+		for rep := 0; rep < 3; rep++ {
+			if err := c05One(o, r, name, mkcfg()); err != nil {
+				return err
+			}
+		}
+	}
 	nrand := 600
 	if tier == "thorough" {
 		nrand = 6000
 	}
 	pieces := []string{"/a=", "/b=", "/gomaxprocs=", "-", "-8", "-16", "/", "Fib", "/a", "=", "7", "é", "/7=", "/ab=", "x", "*",
+		"/a=1", "/a=2", "/a=", "/b=x", "/gomaxprocs=2", "/gomaxprocs=4", "//", "/a=1/a=2", "/b=/b=y",
 		"-99999999999999999999", "-18446744073709551616", "-+4", "-0", "-007", "+", "-9223372036854775808", "1234567890123456789012", "-٣", "-1e3", "-0x10", "-1_0"}
 	for i := 0; i < nrand; i++ {
 		name := ""
